@@ -94,6 +94,7 @@ def merge(outs):
 def pick_samples(samples, k=10):
     seen = set()
     out = []
+    samples = sorted(samples, key=lambda s: (not s.get("nontrivial", False), s.get("stratum") == "regress"))
     for s in samples:
         c = (s.get("stratum"), s.get("class"))
         if c in seen:
